@@ -193,7 +193,8 @@ def insertRule (fixedOrder : Bool) (s : Sheet) (r : Rule) (index : Option Nat) (
   | .namespace =>
     let place : Option Nat :=
       if inOrder then
-        some (inOrderPlace fixedOrder s .namespace [.charset, .import] (bodyKinds ++ [.unknown, .comment]) index)
+        some (inOrderPlace fixedOrder s .namespace [.charset, .import] (bodyKinds ++ [.unknown, .comment])
+          (if fixedOrder then s.length else index))     -- repaired: a given index is ignored
       else if (s.drop index).any (kindIn [.charset, .import]) then none
       else if (s.take index).any (kindIn bodyKinds) then none
       else some index
@@ -212,7 +213,7 @@ def insertRule (fixedOrder : Bool) (s : Sheet) (r : Rule) (index : Option Nat) (
     let place : Option Nat :=
       if inOrder then
         some (inOrderPlace fixedOrder s .variables [.charset, .import, .namespace]
-          [.media, .page, .style, .fontface, .unknown, .comment] index)
+          [.media, .page, .style, .fontface, .unknown, .comment] (if fixedOrder then s.length else index))
       else if (s.drop index).any (kindIn [.charset, .import, .namespace]) then none
       else if (s.take index).any (kindIn [.media, .page, .style, .fontface]) then none
       else some index
